@@ -11,7 +11,7 @@
     C12_then_usable…            after a failed op the next op behaves as on the original state
   Containers whose elements are containers: `Nest` (C12_…_nest).  The dispatcher (NULL, magic number, unimplemented class or member)
   is stated about engine C08's model of `Type_Of` and the declaration matrix generated from the sources.  The order of checks and
-  mutations of the 64 mirrored C functions is a generated definition (`CelloGen.Fail.profile`) the `C12_source_…` theorems evaluate.
+  mutations of the 71 mirrored C functions is a generated definition (`CelloGen.Fail.profile`) the `C12_source_…` theorems evaluate.
   Known findings are modelled as they are and refuted on concrete witnesses (`…_refuted`).  Defects repaired by a `fix:` commit
   keep their `…_refuted` theorem as a statement about an explicit OLD variant of the model function
   (CelloProofs/Lemmas/FailOld.lean), next to what the current model does on the same witness.
@@ -24,6 +24,7 @@ import CelloProofs.Lemmas.FailOld
 import CelloProofs.Lemmas.FailNest
 import CelloProofs.Lemmas.FailProfile
 import CelloProofs.Lemmas.FailDispatch
+import CelloProofs.Lemmas.FailSort
 
 namespace Cello.Fail
 
@@ -96,7 +97,7 @@ theorem C12_array_push_at_bad_index_atomic (a : Arr) (v k : Val) (hk : k.inRange
 /-- **C12, Array: raised ⇔ invalid, with the documented exception.** For every well-formed array and every operation, the
     exception the model raises is the one `Arr.spec` documents for that argument: index outside `[-len, len)` (any int64),
     wrong-typed or NULL index / element, empty pop, absent element, method `Format` missing; and none otherwise. -/
-theorem C12_raises_exactly_array (a : Arr) (op : Op) (hw : a.wf) (ho : op.argsOk) :
+theorem C12_raises_exactly_array (a : Arr) (op : Op) (hw : a.wf) (ho : op.argsOk) (hu : Arr.ubTerritory op = false) :
     (a.step op).2.exc? = a.spec op := by
   obtain ⟨hty, hel, hlen⟩ := hw
   have hn : a.items.length < 2 ^ 63 := by omega
@@ -182,8 +183,8 @@ theorem C12_raises_exactly_array (a : Arr) (op : Op) (hw : a.wf) (ho : op.argsOk
       cases x with
       | none => simp [R.exc?, h]
       | some y => cases y <;> simp_all [R.exc?]
-    | scalar v => cases v <;> simp [Arr.step, Arr.concat, Arr.spec, R.exc?]
-  | assign v => cases v <;> simp [Arr.step, Arr.assign, Arr.spec, R.exc?]
+    | scalar v => cases v <;> simp [Arr.step, Arr.concat, Arr.spec, R.exc?, Arr.ubTerritory] at hu ⊢
+  | assign v => cases v <;> simp [Arr.step, Arr.assign, Arr.spec, R.exc?, Arr.ubTerritory] at hu ⊢
   | print pos fmt args =>
     cases fmt with
     | nil => simp [Arr.step, Arr.spec, R.exc?]
@@ -339,7 +340,7 @@ theorem C12_failure_atomic_list (l l' : Lst) (op : Op) (e : Exc)
 /-- **C12, List: raised ⇔ invalid, with the documented exception** (`List_At` for get/set/pop_at; `List_Push_At` validates the
     position first — 0 or an existing position, fix 4077d96 — and then the element; `concat`: the first source element of the
     wrong type, NULL source: ValueError). -/
-theorem C12_raises_exactly_list (l : Lst) (op : Op) (hw : l.wf) (ho : op.argsOk) :
+theorem C12_raises_exactly_list (l : Lst) (op : Op) (hw : l.wf) (ho : op.argsOk) (hu : Lst.ubTerritory op = false) :
     (l.step op).2.exc? = l.spec op := by
   obtain ⟨hty, hel, hlen⟩ := hw
   have hn : l.items.length < 2 ^ 63 := by omega
@@ -423,7 +424,7 @@ theorem C12_raises_exactly_list (l : Lst) (op : Op) (hw : l.wf) (ho : op.argsOk)
     | seq vs =>
       simp only [Lst.step, Lst.concat, Lst.spec]
       exact Lst.concatLoop_exc l.ty hty vs l rfl (fun v hv => (ho v hv).2)
-    | scalar v => cases v <;> simp [Lst.step, Lst.concat, Lst.spec, R.exc?]
+    | scalar v => cases v <;> simp [Lst.step, Lst.concat, Lst.spec, R.exc?, Lst.ubTerritory] at hu ⊢
   | assign v =>
     cases v with
     | str s => simp only [Lst.step, Lst.assign, Lst.spec]; split <;> simp [R.exc?]
@@ -581,7 +582,7 @@ theorem C12_failure_atomic_tuple (t t' : Tup) (op : Op) (e : Exc)
 
 /-- **C12, Tuple: raised ⇔ invalid** for the index, heap and resize checks (search operations: `C12_tuple_rem_raises_exactly`). -/
 theorem C12_raises_exactly_tuple (t : Tup) (op : Op) (hw : t.wf) (ho : op.argsOk)
-    (hop : ∀ v, op ≠ .mem v ∧ op ≠ .rem v) :
+    (hop : ∀ v, op ≠ .mem v ∧ op ≠ .rem v) (hu : t.ubTerritory op = false) :
     (t.step op).2.exc? = t.spec op := by
   have hn : t.items.length < 2 ^ 63 := by unfold Tup.wf at hw; omega
   cases op with
@@ -625,8 +626,8 @@ theorem C12_raises_exactly_tuple (t : Tup) (op : Op) (hw : t.wf) (ho : op.argsOk
   | concat src =>
     cases src with
     | seq vs => simp only [Tup.step, Tup.concat, Tup.spec, heapExc]; split <;> simp [R.exc?]
-    | scalar v => cases v <;> simp only [Tup.step, Tup.concat, Tup.spec, heapExc] <;> (try split) <;> simp [R.exc?]
-  | assign v => cases v <;> simp [Tup.step, Tup.assign, Tup.spec, R.exc?]
+    | scalar v => cases v <;> simp only [Tup.step, Tup.concat, Tup.spec, heapExc, Tup.ubTerritory] at hu ⊢ <;> (try split) <;> simp_all [R.exc?, Option.or]
+  | assign v => cases v <;> simp [Tup.step, Tup.assign, Tup.spec, R.exc?, Tup.ubTerritory] at hu ⊢
   | print pos fmt args =>
     cases fmt with
     | nil => simp [Tup.step, Tup.spec, R.exc?]
@@ -686,7 +687,7 @@ theorem C12_failure_atomic_table (t t' : Tab) (op : Op) (e : Exc)
     all_goals (try (repeat' split at h))
     all_goals (try simp_all)
 
-theorem C12_raises_exactly_table (t : Tab) (op : Op) (hw : t.wf) :
+theorem C12_raises_exactly_table (t : Tab) (op : Op) (hw : t.wf) (hu : Tab.ubTerritory op = false) :
     (t.step op).2.exc? = t.spec op := by
   obtain ⟨hw0, _⟩ := hw
   cases op with
@@ -733,7 +734,7 @@ theorem C12_raises_exactly_table (t : Tab) (op : Op) (hw : t.wf) :
     · simp [h0, R.exc?]
     · by_cases h1 : n < t.items.length <;> simp [h0, h1, R.exc?]
   | len => simp [Tab.step, Tab.spec, R.exc?]
-  | assign v => cases v <;> simp [Tab.step, Tab.assign, Tab.spec, R.exc?]
+  | assign v => cases v <;> simp [Tab.step, Tab.assign, Tab.spec, R.exc?, Tab.ubTerritory] at hu ⊢
   | print pos fmt args =>
     cases fmt with
     | nil => simp [Tab.step, Tab.spec, R.exc?]
@@ -805,7 +806,7 @@ theorem C12_table_get_slot_address (t : Tab) (hw : t.wf) (a : SlotArg) (x : Val)
       have hc : castTo t.kty k = .ok k := by
         cases k <;> simp_all [castTo, Val.ty?]
       have h0 : t.nslots ≠ 0 := fun h => by have := hw.1 h; rw [this] at hmem; cases hmem
-      have hexc := C12_raises_exactly_table t (.get k) hw
+      have hexc := C12_raises_exactly_table t (.get k) hw rfl
       refine ⟨by simp [Tab.getSlot, hl], ?_, ?_⟩
       · simp only [Tab.getSlot, hl]
         simp only [Tab.step, Tab.get, hc, h0, if_false, hl, Tab.spec] at hexc
@@ -816,7 +817,7 @@ theorem C12_table_get_slot_address (t : Tab) (hw : t.wf) (a : SlotArg) (x : Val)
     simp only [Tab.slotObj] at hx
     refine ⟨by simp [Tab.getSlot, hx, hget], ?_, by intro k' hk'; cases hk'⟩
     simp only [Tab.getSlot, hx]
-    exact C12_raises_exactly_table t (.get x) hw
+    exact C12_raises_exactly_table t (.get x) hw rfl
 
 -- the hypotheses are met, on a well-formed table whose value type is not its key type and on one where the two coincide
 example : Tab.wf { kty := .int, vty := .str, items := [(.int 1, .str ['a'])], nslots := 5 } ∧
@@ -855,7 +856,7 @@ theorem C12_failure_atomic_tree (t t' : Tre) (op : Op) (e : Exc)
     all_goals (try (repeat' split at h))
     all_goals (try simp_all)
 
-theorem C12_raises_exactly_tree (t : Tre) (op : Op) :
+theorem C12_raises_exactly_tree (t : Tre) (op : Op) (hu : Tre.ubTerritory op = false) :
     (t.step op).2.exc? = t.spec op := by
   cases op with
   | get k =>
@@ -893,7 +894,7 @@ theorem C12_raises_exactly_tree (t : Tre) (op : Op) :
     simp only [Tre.step, Tre.resize, Tre.spec]
     by_cases h0 : n = 0 <;> simp [h0, R.exc?]
   | len => simp [Tre.step, Tre.spec, R.exc?]
-  | assign v => cases v <;> simp [Tre.step, Tre.assign, Tre.spec, R.exc?]
+  | assign v => cases v <;> simp [Tre.step, Tre.assign, Tre.spec, R.exc?, Tre.ubTerritory] at hu ⊢
   | print pos fmt args =>
     cases fmt with
     | nil => simp [Tre.step, Tre.spec, R.exc?]
@@ -910,6 +911,267 @@ theorem C12_table_assign_refuted :
 theorem C12_tree_assign_refuted :
     (Tre.step { kty := .int, vty := .int, items := [(.int 1, .int 2)] } (.assign .null)) =
       ({ kty := .int, vty := .int, items := [] }, .raised .ValueError) := by decide
+
+/-! ## undefined behaviour is not "no exception": the territory of finding foreach-noniter, exactly
+
+  `R.exc?` reads `ub` as "no exception"; the `C12_raises_exactly_*` theorems therefore carry the hypothesis `X.ubTerritory op = false`
+  (FailSpec.lean), and the theorems of this section say that, for well-formed states and arguments, `ub` is the outcome on that
+  territory and nowhere else (`Op.directiveFirst`: a `print_to` that starts with a directive into a sink that is not a String is
+  not modelled).  Tuple `mem` / `rem` search heterogeneous items and are specified separately (`C12_tuple_rem_raises_exactly`). -/
+
+example : Arr.ubTerritory (.get (.int 0)) = false ∧ Arr.ubTerritory (.concat (.scalar (.int 1))) = false ∧
+    Lst.ubTerritory (.concat (.seq [.int 1])) = false ∧ Tup.ubTerritory { alloc := .stack, items := [] } (.concat (.scalar (.str ['a']))) = false ∧
+    Tab.ubTerritory (.assign .null) = false ∧ Tre.ubTerritory (.set (.int 1) (.int 2)) = false ∧ Op.directiveFirst (.print 0 [.lit ['a']] []) = false := by decide
+
+/-- **C12, Array: undefined behaviour exactly on the foreach-noniter territory.** For every well-formed array and every well-formed
+    argument the model answers `ub` for `concat` from a String and `assign` from an object — and for nothing else: together with
+    `C12_raises_exactly_array`, every other operation either succeeds or raises the documented exception. -/
+theorem C12_no_ub_array (a : Arr) (op : Op) (hw : a.wf) (ho : op.argsOk) (hm : op.directiveFirst = false) :
+    (a.step op).2 = .ub ↔ Arr.ubTerritory op = true := by
+  obtain ⟨hty, hel, hlen⟩ := hw
+  have hn : a.items.length < 2 ^ 63 := by omega
+  cases op with
+  | get k =>
+    have h1 := (resolve_exc a.items.length hn k ho.1).2
+    simp only [Arr.step, Arr.get, Arr.ubTerritory]
+    cases hr : resolve a.items.length k <;> simp_all
+  | set k v =>
+    have h1 := (resolve_exc a.items.length hn k ho.1.1).2
+    have h2 := (assignTo_exc a.ty hty v ho.2.2).2
+    simp only [Arr.step, Arr.set, Arr.ubTerritory]
+    cases hr : resolve a.items.length k <;> cases ha : assignTo a.ty v <;> simp_all
+  | mem v =>
+    have h1 := findEq_ne_ub a.ty hty v ho.2 a.items 0 hel
+    simp only [Arr.step, Arr.mem, Arr.ubTerritory]
+    cases hr : findEq true v a.items 0 <;> simp_all
+  | rem v =>
+    have h1 := findEq_ne_ub a.ty hty v ho.2 a.items 0 hel
+    simp only [Arr.step, Arr.rem, Arr.ubTerritory]
+    cases hr : findEq true v a.items 0 with
+    | ok r => cases r <;> simp
+    | raised e => simp
+    | ub => exact absurd hr h1
+  | push v =>
+    have h2 := (assignTo_exc a.ty hty v ho.2).2
+    simp only [Arr.step, Arr.push, Arr.ubTerritory]
+    cases ha : assignTo a.ty v <;> simp_all
+  | append v =>
+    have h2 := (assignTo_exc a.ty hty v ho.2).2
+    simp only [Arr.step, Arr.push, Arr.ubTerritory]
+    cases ha : assignTo a.ty v <;> simp_all
+  | pushAt v k =>
+    have h2 := (assignTo_exc a.ty hty v ho.1.2).2
+    simp only [Arr.step, Arr.pushAt, Arr.ubTerritory]
+    cases hc : cInt k with
+    | ok kb => simp only; split <;> (try cases ha : assignTo a.ty v) <;> simp_all
+    | raised e => simp
+    | ub => cases k <;> simp [cInt] at hc
+  | pop => simp only [Arr.step, Arr.pop, Arr.ubTerritory]; split <;> simp
+  | popAt k =>
+    have h1 := (resolve_exc a.items.length hn k ho.1).2
+    simp only [Arr.step, Arr.popAt, Arr.ubTerritory]
+    cases hr : resolve a.items.length k <;> simp_all
+  | resize n => simp only [Arr.step, Arr.resize, Arr.ubTerritory]; split <;> simp
+  | len => simp [Arr.step, Arr.ubTerritory]
+  | concat src =>
+    cases src with
+    | seq vs =>
+      have h := concatLoop_exc a.ty hty vs (fun v hv => (ho v hv).2)
+      simp only [Arr.step, Arr.concat, Arr.ubTerritory]
+      rcases hc : Arr.concatLoop a.ty vs with ⟨r, x⟩
+      rw [hc] at h; simp only at h
+      cases x with
+      | none => simp
+      | some y => cases y <;> simp_all
+    | scalar v => cases v <;> simp [Arr.step, Arr.concat, Arr.ubTerritory]
+  | assign v => cases v <;> simp [Arr.step, Arr.assign, Arr.ubTerritory]
+  | print pos fmt args =>
+    cases fmt with
+    | nil => simp [Arr.step, Arr.ubTerritory]
+    | cons it rest => cases it <;> simp [Arr.step, Arr.ubTerritory, Op.directiveFirst] at hm ⊢
+
+/-- **C12, List: `ub` exactly for `concat` from an object that is not a sequence** (finding foreach-noniter) -/
+theorem C12_no_ub_list (l : Lst) (op : Op) (hw : l.wf) (ho : op.argsOk) (hm : op.directiveFirst = false) :
+    (l.step op).2 = .ub ↔ Lst.ubTerritory op = true := by
+  obtain ⟨hty, hel, hlen⟩ := hw
+  have hn : l.items.length < 2 ^ 63 := by omega
+  cases op with
+  | get k =>
+    have h1 := (resolve_exc l.items.length hn k ho.1).2
+    simp only [Lst.step, Lst.get, Lst.ubTerritory]
+    cases hr : resolve l.items.length k <;> simp_all
+  | set k v =>
+    have h1 := (resolve_exc l.items.length hn k ho.1.1).2
+    have h2 := (assignTo_exc l.ty hty v ho.2.2).2
+    simp only [Lst.step, Lst.set, Lst.ubTerritory]
+    cases hr : resolve l.items.length k <;> cases ha : assignTo l.ty v <;> simp_all
+  | mem v =>
+    have h1 := findEq_ne_ub l.ty hty v ho.2 l.items 0 hel
+    simp only [Lst.step, Lst.mem, Lst.ubTerritory]
+    cases hr : findEq true v l.items 0 <;> simp_all
+  | rem v =>
+    have h1 := findEq_ne_ub l.ty hty v ho.2 l.items 0 hel
+    simp only [Lst.step, Lst.rem, Lst.ubTerritory]
+    cases hr : findEq true v l.items 0 with
+    | ok r => cases r <;> simp
+    | raised e => simp
+    | ub => exact absurd hr h1
+  | push v =>
+    have h2 := (assignTo_exc l.ty hty v ho.2).2
+    simp only [Lst.step, Lst.push, Lst.ubTerritory]
+    cases ha : assignTo l.ty v <;> simp_all
+  | append v =>
+    have h2 := (assignTo_exc l.ty hty v ho.2).2
+    simp only [Lst.step, Lst.push, Lst.ubTerritory]
+    cases ha : assignTo l.ty v <;> simp_all
+  | pushAt v k =>
+    have h2 := (assignTo_exc l.ty hty v ho.1.2).2
+    simp only [Lst.step, Lst.pushAt, Lst.ubTerritory]
+    cases hc : cInt k with
+    | ok kb =>
+      by_cases h0 : kb = 0
+      · simp only [h0, if_true]
+        cases ha : assignTo l.ty v <;> simp_all
+      · simp only [h0, if_false]
+        cases hr : resolveB l.items.length kb with
+        | ok i => cases ha : assignTo l.ty v <;> simp_all
+        | raised e => simp
+        | ub => simp [resolveB] at hr; split at hr <;> cases hr
+    | raised e => simp
+    | ub => cases k <;> simp [cInt] at hc
+  | pop => simp only [Lst.step, Lst.pop, Lst.ubTerritory]; split <;> simp
+  | popAt k =>
+    have h1 := (resolve_exc l.items.length hn k ho.1).2
+    simp only [Lst.step, Lst.popAt, Lst.ubTerritory]
+    cases hr : resolve l.items.length k <;> simp_all
+  | resize n => simp only [Lst.step, Lst.resize, Lst.ubTerritory]; split <;> simp
+  | len => simp [Lst.step, Lst.ubTerritory]
+  | concat src =>
+    cases src with
+    | seq vs =>
+      have := Lst.concatLoop_ne_ub l.ty hty vs l rfl (fun v hv => (ho v hv).2)
+      simp only [Lst.step, Lst.concat, Lst.ubTerritory]
+      simpa using this
+    | scalar v => cases v <;> simp [Lst.step, Lst.concat, Lst.ubTerritory]
+  | assign v =>
+    cases v with
+    | str s => simp only [Lst.step, Lst.assign, Lst.ubTerritory]; split <;> simp
+    | _ => simp [Lst.step, Lst.assign, Lst.ubTerritory]
+  | print pos fmt args =>
+    cases fmt with
+    | nil => simp [Lst.step, Lst.ubTerritory]
+    | cons it rest => cases it <;> simp [Lst.step, Lst.ubTerritory, Op.directiveFirst] at hm ⊢
+
+/-- **C12, Tuple: `ub` exactly for `concat` from a String into a heap Tuple and `assign` from an object** (finding foreach-noniter) -/
+theorem C12_no_ub_tuple (t : Tup) (op : Op) (hw : t.wf) (ho : op.argsOk) (hm : op.directiveFirst = false)
+    (hop : ∀ v, op ≠ .mem v ∧ op ≠ .rem v) :
+    (t.step op).2 = .ub ↔ t.ubTerritory op = true := by
+  have hn : t.items.length < 2 ^ 63 := by unfold Tup.wf at hw; omega
+  cases op with
+  | get k =>
+    have h1 := (resolve_exc t.items.length hn k ho.1).2
+    simp only [Tup.step, Tup.get, Tup.ubTerritory]
+    cases hr : resolve t.items.length k <;> simp_all
+  | set k v =>
+    have h1 := (resolve_exc t.items.length hn k ho.1.1).2
+    simp only [Tup.step, Tup.set, Tup.ubTerritory]
+    cases hr : resolve t.items.length k <;> simp_all
+  | mem v => exact absurd rfl (hop v).1
+  | rem v => exact absurd rfl (hop v).2
+  | push v => simp only [Tup.step, Tup.push, Tup.ubTerritory]; split <;> simp
+  | append v => simp only [Tup.step, Tup.push, Tup.ubTerritory]; split <;> simp
+  | pushAt v k =>
+    have h1 := (resolve_exc t.items.length hn k ho.2.1).2
+    simp only [Tup.step, Tup.pushAt, Tup.ubTerritory]
+    cases hr : resolve t.items.length k <;> (try simp only) <;> (try split) <;> simp_all
+  | pop => simp only [Tup.step, Tup.pop, Tup.ubTerritory]; (repeat' split) <;> simp
+  | popAt k =>
+    have h1 := (resolve_exc t.items.length hn k ho.1).2
+    simp only [Tup.step, Tup.popAt, Tup.ubTerritory]
+    cases hr : resolve t.items.length k <;> (try simp only) <;> (try split) <;> simp_all
+  | resize n => simp only [Tup.step, Tup.resize, Tup.ubTerritory]; (repeat' split) <;> simp
+  | len => simp [Tup.step, Tup.ubTerritory]
+  | concat src =>
+    cases src with
+    | seq vs => simp only [Tup.step, Tup.concat, Tup.ubTerritory]; split <;> simp
+    | scalar v => cases v <;> simp only [Tup.step, Tup.concat, Tup.ubTerritory] <;> (try split) <;> simp_all
+  | assign v => cases v <;> simp [Tup.step, Tup.assign, Tup.ubTerritory]
+  | print pos fmt args =>
+    cases fmt with
+    | nil => simp [Tup.step, Tup.ubTerritory]
+    | cons it rest => cases it <;> simp [Tup.step, Tup.ubTerritory, Op.directiveFirst] at hm ⊢
+
+/-- **C12, Table: `ub` exactly for `assign` from a String** (finding foreach-noniter) — every state, every argument -/
+theorem C12_no_ub_table (t : Tab) (op : Op) (hm : op.directiveFirst = false) :
+    (t.step op).2 = .ub ↔ Tab.ubTerritory op = true := by
+  cases op with
+  | get k =>
+    have h1 := (castTo_exc t.kty k).2.1
+    simp only [Tab.step, Tab.get, Tab.ubTerritory]
+    cases hr : castTo t.kty k <;> (repeat' split) <;> simp_all
+  | set k v =>
+    have h1 := (castTo_exc t.kty k).2.1
+    have h2 := (castTo_exc t.vty v).2.1
+    simp only [Tab.step, Tab.set, Tab.ubTerritory]
+    cases hr : castTo t.kty k <;> cases hv : castTo t.vty v <;> simp_all
+  | mem k =>
+    have h1 := (castTo_exc t.kty k).2.1
+    simp only [Tab.step, Tab.mem, Tab.ubTerritory]
+    cases hr : castTo t.kty k <;> simp_all
+  | rem k =>
+    have h1 := (castTo_exc t.kty k).2.1
+    simp only [Tab.step, Tab.rem, Tab.ubTerritory]
+    cases hr : castTo t.kty k <;> (repeat' split) <;> simp_all
+  | resize n => simp only [Tab.step, Tab.resize, Tab.ubTerritory]; (repeat' split) <;> simp
+  | assign v => cases v <;> simp [Tab.step, Tab.assign, Tab.ubTerritory]
+  | print pos fmt args =>
+    cases fmt with
+    | nil => simp [Tab.step, Tab.ubTerritory]
+    | cons it rest => cases it <;> simp [Tab.step, Tab.ubTerritory, Op.directiveFirst] at hm ⊢
+  | _ => simp [Tab.step, Tab.ubTerritory]
+
+/-- **C12, Tree: `ub` exactly for `assign` from an object** (finding foreach-noniter) — every state, every argument -/
+theorem C12_no_ub_tree (t : Tre) (op : Op) (hm : op.directiveFirst = false) :
+    (t.step op).2 = .ub ↔ Tre.ubTerritory op = true := by
+  cases op with
+  | get k =>
+    have h1 := (castTo_exc t.kty k).2.1
+    simp only [Tre.step, Tre.get, Tre.ubTerritory]
+    cases hr : castTo t.kty k <;> (repeat' split) <;> simp_all
+  | set k v =>
+    have h1 := (castTo_exc t.kty k).2.1
+    have h2 := (castTo_exc t.vty v).2.1
+    simp only [Tre.step, Tre.set, Tre.ubTerritory]
+    cases hr : castTo t.kty k <;> cases hv : castTo t.vty v <;> simp_all
+  | mem k =>
+    have h1 := (castTo_exc t.kty k).2.1
+    simp only [Tre.step, Tre.mem, Tre.ubTerritory]
+    cases hr : castTo t.kty k <;> simp_all
+  | rem k =>
+    have h1 := (castTo_exc t.kty k).2.1
+    simp only [Tre.step, Tre.rem, Tre.ubTerritory]
+    cases hr : castTo t.kty k <;> (repeat' split) <;> simp_all
+  | resize n => simp only [Tre.step, Tre.resize, Tre.ubTerritory]; (repeat' split) <;> simp
+  | assign v => cases v <;> simp [Tre.step, Tre.assign, Tre.ubTerritory]
+  | print pos fmt args =>
+    cases fmt with
+    | nil => simp [Tre.step, Tre.ubTerritory]
+    | cons it rest => cases it <;> simp [Tre.step, Tre.ubTerritory, Op.directiveFirst] at hm ⊢
+  | _ => simp [Tre.step, Tre.ubTerritory]
+
+/-- **Known finding KF-C12-foreach-noniter (refuted).** `concat(list, $I(5))`, `concat(array, $S("ab"))`, `assign(tuple, $I(1))`,
+    `assign(table, $S("ab"))`, `assign(tree, $I(1))`: `foreach` fetches the `Iter` instance unchecked and calls through NULL — the
+    model answers `ub` (the process dies), not the ClassError the specification tables document; Array, Table and Tree have also
+    been cleared / re-typed by then. -/
+theorem C12_foreach_noniter_refuted :
+    Lst.step { ty := .int, items := [.int 1] } (.concat (.scalar (.int 5))) = ({ ty := .int, items := [.int 1] }, .ub) ∧
+    (Lst.spec { ty := .int, items := [.int 1] } (.concat (.scalar (.int 5)))) = some .ClassError ∧
+    (Arr.step { ty := .int, items := [.int 1], nslots := 1 } (.concat (.scalar (.str ['a', 'b'])))).2 = .ub ∧
+    (Tup.step { alloc := .heap, items := [.int 1] } (.assign (.int 1))).2 = .ub ∧
+    (Tab.step { kty := .int, vty := .int, items := [(.int 1, .int 2)], nslots := 5 } (.assign (.str ['a', 'b']))) =
+      ({ kty := .ref, vty := .ref, items := [], nslots := idealSize 2 }, .ub) ∧
+    (Tre.step { kty := .int, vty := .int, items := [(.int 1, .int 2)] } (.assign (.int 1))) = ({ kty := .ref, vty := .ref, items := [] }, .ub) := by
+  decide
 
 /-! ## String -/
 
@@ -1098,6 +1360,124 @@ theorem C12_string_rem_type_refuted :
     Str.step { alloc := .heap, s := "hello".toList } (.rem (.int 5)) = ({ alloc := .heap, s := "hello".toList }, .raised .ClassError) ∧
     Str.step { alloc := .heap, s := "hello".toList } (.rem (.plain 1)) = ({ alloc := .heap, s := "hello".toList }, .raised .ClassError) := by
   decide
+
+/-! ### the target as its own operand (fix 744a45f) and `String_Resize` when `realloc` fails (fix 63509f2) -/
+
+/-- **the source has the self-assignment guard where the model assumes it**: `String_Assign` begins `c_str(obj)`;
+    `if (val is s->val) { return; }` — before the allocation check, every `throw` and every mutation.  Stated about the generated
+    profile (and placed before `C12_source_profile`): removing or moving the guard breaks this obligation. -/
+theorem C12_string_assign_self_guard_source : selfGuardFirst CelloGen.Fail.profile = true := by decide
+
+/-- **C12, `assign(x, x)` changes nothing and is not refused** — for a String on the heap, on the stack or in static storage (the guard
+    precedes the "not on heap" check), an Array, List, Table, Tree (`self is obj`), an Int, a heap Tuple; the one call that raises
+    is a Tuple off the heap (ValueError, "cannot reallocate"), and it too leaves the object as it was. -/
+theorem C12_assign_self_noop (o o' : Obj) (r : Res) (h : o.assignSelf = some (o', r)) :
+    o' = o ∧ (r = .ok .unit ∨ (∃ t, o = .tup t ∧ t.alloc.nonHeap = true ∧ r = .raised .ValueError)) := by
+  cases o with
+  | tup t =>
+    simp only [Obj.assignSelf] at h
+    split at h <;> simp only [Option.some.injEq, Prod.mk.injEq] at h <;> obtain ⟨h1, h2⟩ := h <;> subst h1 <;> subst h2
+    · rename_i hn; exact ⟨rfl, Or.inr ⟨t, rfl, hn, rfl⟩⟩
+    · exact ⟨rfl, Or.inl rfl⟩
+  | scalar a v =>
+    cases v <;> simp only [Obj.assignSelf, Option.some.injEq, Prod.mk.injEq, reduceCtorEq] at h
+    obtain ⟨h1, h2⟩ := h; subst h1; subst h2; exact ⟨rfl, Or.inl rfl⟩
+  | str x =>
+    simp only [Obj.assignSelf, Str.assignSelf, Option.some.injEq, Prod.mk.injEq] at h
+    obtain ⟨h1, h2⟩ := h; subst h1; subst h2; exact ⟨rfl, Or.inl rfl⟩
+  | arr _ | lst _ | tab _ | tre _ =>
+    simp only [Obj.assignSelf, Option.some.injEq, Prod.mk.injEq] at h
+    obtain ⟨h1, h2⟩ := h; subst h1; subst h2; exact ⟨rfl, Or.inl rfl⟩
+  | _ => simp [Obj.assignSelf] at h
+
+example : (Obj.str { alloc := .stack, s := "abc".toList }).assignSelf = some (.str { alloc := .stack, s := "abc".toList }, .ok .unit) := rfl
+
+/-- repaired defect (fix 744a45f), refuted for the OLD `String_Assign`: `assign(s, s)` on a heap String read the characters out of the
+    block it had just passed to `realloc` (undefined behaviour), and on a stack String was refused with ValueError although nothing
+    was to change; the current model answers `ok` with the String untouched on both witnesses. -/
+theorem C12_string_assign_self_old_refuted :
+    (Str.assignSelfOld { alloc := .heap, s := "abc".toList }).2 = .ub ∧
+    (Str.assignSelfOld { alloc := .stack, s := "abc".toList }).2 = .raised .ValueError ∧
+    Str.assignSelf { alloc := .heap, s := "abc".toList } = ({ alloc := .heap, s := "abc".toList }, .ok .unit) ∧
+    Str.assignSelf { alloc := .stack, s := "abc".toList } = ({ alloc := .stack, s := "abc".toList }, .ok .unit) := by decide
+
+/-- **the source tests the result of `realloc` before it writes through it** (`String_Resize`, fix 63509f2): in the token list with
+    the CELLO_MEMORY_CHECK regions kept, `if (s->val is NULL) throw(OutOfMemoryError, …)` directly follows `s->val = realloc(…)`. -/
+theorem C12_string_resize_null_test_source : resizeChecksFirst CelloGen.Fail.memoryProfile = true := by decide
+
+/-- …so a failing `realloc` in `resize(string, n)` is *reported* (OutOfMemoryError) and never written through.  (C12 itself does not
+    cover allocation failure: the old buffer is lost either way — `s->val` has been overwritten when the test runs.) -/
+theorem C12_string_resize_never_writes_through_null (reallocFails : Bool) :
+    Str.resizeOom (resizeChecksFirst CelloGen.Fail.memoryProfile) reallocFails ≠ .nullWrite := by
+  rw [C12_string_resize_null_test_source]; cases reallocFails <;> decide
+
+/-- repaired defect (fix 63509f2), refuted for the OLD order of `String_Resize` (`memset` / terminator store, *then* the NULL test):
+    a failing `realloc` was written through before it was noticed -/
+theorem C12_string_resize_old_refuted :
+    resizeChecksFirst memoryProfileOld = false ∧
+    Str.resizeOom (resizeChecksFirst memoryProfileOld) true = .nullWrite ∧
+    Str.resizeOom (resizeChecksFirst CelloGen.Fail.memoryProfile) true = .outOfMemory := by decide
+
+/-! ## `sort` (Array, Tuple)
+
+  `sort(x)` is `sort_by(x, lt)`: a quicksort that exchanges elements while it compares them (`sortItems`).  Items of one type are
+  always comparable: the sort completes.  A Tuple may hold items of unlike types; `lt` then raises in the middle of a partition and
+  the exchanges made so far stay — known finding KF-C12-sort-partial, territory `sortKf`. -/
+
+/-- **C12, sort outside the finding: never refused.** A sequence with fewer than two items, or whose items are all `Int`, all `String`
+    or all of one instance-less type, is sorted to the end — no exception, no undefined behaviour, the recursion fuel of the model is
+    never exhausted — and keeps its length. -/
+theorem C12_sort_completes_outside_kf (xs : List Val) (hk : sortKf xs = false) :
+    ∃ xs', sortItems xs = (xs', .ok ()) ∧ xs'.length = xs.length :=
+  sortItems_outside_kf xs hk
+
+/-- **C12, Tuple sort: failure is atomic outside the finding** (there it cannot fail at all) -/
+theorem C12_failure_atomic_tuple_sort (t t' : Tup) (e : Exc) (hk : sortKf t.items = false) (h : t.sort = (t', .raised e)) : t' = t := by
+  obtain ⟨xs', h1, _⟩ := sortItems_outside_kf t.items hk
+  simp [Tup.sort, h1] at h
+
+/-- **C12, Array sort never raises**: the elements of a typed Array are of one type — for every well-typed array of the model -/
+theorem C12_array_sort_never_raises (a : Arr) (ht : typedItems a.ty a.items) :
+    ∃ xs', a.sort = ({ a with items := xs' }, .ok .unit) ∧ xs'.length = a.items.length := by
+  obtain ⟨hty, hel⟩ := ht
+  have hk : sortKf a.items = false := by
+    unfold sortKf homogeneous
+    cases hta : a.ty with
+    | int =>
+      have : a.items.all Val.isInt = true := by
+        rw [List.all_eq_true]; intro x hx; have := hel x hx; rw [hta] at this
+        cases x <;> simp_all [Val.elemOf, Val.ty?, Val.isInt]
+      simp [this]
+    | str =>
+      have : a.items.all Val.isStr = true := by
+        rw [List.all_eq_true]; intro x hx; have := hel x hx; rw [hta] at this
+        cases x <;> simp_all [Val.elemOf, Val.ty?, Val.isStr]
+      simp [this]
+    | plain =>
+      have : a.items.all Val.isPlain = true := by
+        rw [List.all_eq_true]; intro x hx; have := hel x hx; rw [hta] at this
+        cases x <;> simp_all [Val.elemOf, Val.ty?, Val.isPlain]
+      simp [this]
+    | ref => rw [hta] at hty; exact hty.elim
+  obtain ⟨xs', h1, h2⟩ := sortItems_outside_kf a.items hk
+  exact ⟨xs', by simp [Arr.sort, h1], h2⟩
+
+example : sortKf [.int 3, .int 1, .int 2] = false ∧ sortKf [.str ['b'], .str ['a']] = false ∧ sortKf [.int 3, .str ['a']] = true ∧
+    sortKf [.str ['a']] = false := by decide
+example : sortItems [.int 3, .int 1, .int 2, .int 1] = ([.int 1, .int 1, .int 2, .int 3], .ok ()) := by decide
+
+/-- **Known finding KF-C12-sort-partial (refuted).** `sort(tuple(3, "a", 1))`: the pivot "a" has been exchanged with the last item
+    when `lt(3, "a")` raises ClassError — the Tuple is left as `(3, 1, "a")`; likewise a stack Tuple `("b", 2)` is left as `(2, "b")`.
+    The unconditional statement "a sort that raises returns the Tuple it was given" is false. -/
+theorem C12_tuple_sort_refuted :
+    Tup.sort { alloc := .heap, items := [.int 3, .str ['a'], .int 1] } =
+      ({ alloc := .heap, items := [.int 3, .int 1, .str ['a']] }, .raised .ClassError) ∧
+    Tup.sort { alloc := .stack, items := [.str ['b'], .int 2] } = ({ alloc := .stack, items := [.int 2, .str ['b']] }, .raised .ClassError) ∧
+    ¬ (∀ (t t' : Tup) (e : Exc), t.sort = (t', .raised e) → t' = t) := by
+  refine ⟨by decide, by decide, ?_⟩
+  intro h
+  have := h { alloc := .heap, items := [.int 3, .str ['a'], .int 1] } _ _ (by decide : Tup.sort _ = (⟨.heap, [.int 3, .int 1, .str ['a']]⟩, .raised .ClassError))
+  revert this; decide
 
 /-! ## Range, Slice, Zip, plain values -/
 
@@ -1761,7 +2141,8 @@ theorem C12_failure_atomic_nested (σ σ' : Store) (id : Nat) (op : NOp) (e : Ex
   `throw` or a new branch in any mirrored function makes one of them fail to check. -/
 
 /-- **the mirrored functions are the ones the model was written against**: for each of the 64 functions, the sequence of guards
-    (`if` conditions), throw sites, validating calls, element assignments and mutations, with its block structure -/
+    (`if` conditions), throw sites, validating calls, element assignments and mutations, with its block structure
+    (71 since the sort functions of Array / Tuple and `print_to_with` are profiled) -/
 theorem C12_source_profile : CelloGen.Fail.profile = modelledProfile := by decide
 
 /-- **in the C source, checks precede mutations** in every function listed in `orderedFns`: on no path through the function (loops,
@@ -1772,8 +2153,8 @@ theorem C12_source_checks_precede_mutations :
     ∀ f ∈ orderedFns, Profile.ordered CelloGen.Fail.profile f = true := by decide
 
 /-- **…and in the functions of `unorderedFns` they do not** — the known findings (F15 `Array_Push` / `Array_Push_At` / `Array_Concat`,
-    `List_Concat`, the four `*_Assign`, `Tuple_Concat` / `Tuple_Assign`) and the benign cases named there (`Table_Set`,
-    `Table_Set_Move`, `Tree_Set`, `Slice_Get`, `Zip_Get`).  A repair of one of them in /repo breaks this obligation, so that the model
+    `List_Concat`, the four `*_Assign`, `Tuple_Concat` / `Tuple_Assign`; KF-C12-sort-partial: the six `*_Sort_*` functions; F29:
+    `print_to_with`) and the benign cases named there (`Table_Set`, `Table_Set_Move`, `Tree_Set`, `Slice_Get`, `Zip_Get`).  A repair of one of them in /repo breaks this obligation, so that the model
     (and the `…_refuted` theorem of the finding) cannot silently go stale. -/
 theorem C12_source_order_violations :
     ∀ f ∈ unorderedFns, Profile.ordered CelloGen.Fail.profile f = false := by decide
